@@ -207,6 +207,22 @@ func runSign(d *big.Int, digest []byte, sc mc.Script, oi int) string {
 	if m := checkSig(d, digest, r, s, vr); m != "" {
 		return m
 	}
+	// "verifies under the signer's public key": the key OBJECT the signer hands out (both accessors), with the
+	// history this key object has by now (scalar reused by the caller, Schnorr key derived from it, signatures made)
+	for ai, pub := range []*secec.PublicKey{sk.PublicKey(), func() *secec.PublicKey { p, _ := sk.Public().(*secec.PublicKey); return p }()} {
+		if pub == nil {
+			return "Public() does not return a *PublicKey"
+		}
+		if !pub.VerifyRaw(digest, rr, sr) {
+			return fmt.Sprintf("the signature does not verify under the public key object the signer hands out (accessor %d), although it verifies under a key freshly built from d*G", ai)
+		}
+		if !bytes.Equal(pub.Bytes(), ref.BaseMul(d).Uncompressed()) {
+			return fmt.Sprintf("the signer's public key object (accessor %d) encodes another point than d*G", ai)
+		}
+		if m := lib.CheckPointLight(pub.Point(), ref.BaseMul(d)); m != "" {
+			return fmt.Sprintf("the signer's public key object (accessor %d) holds another point than d*G: %s", ai, m)
+		}
+	}
 	// self-verification never changes the output: compare with the twin option set
 	if eo, ok := o.mk().(*secec.ECDSAOptions); ok {
 		tw := *eo
